@@ -35,7 +35,21 @@
 //!     rollback / timeout cleanup (class `relational_engine.row_lock/foreign_lock_released_at_tx_end`), which is
 //!     what breaks when `release` drops a taken-over key still listed under the OLD holder,
 //!   * takeover-rollback oracle: a rollback restores the pre-image of every row the transaction wrote that nobody
-//!     else has changed since — also when the row had been taken over from a timed-out holder.
+//!     else has changed since — also when the row had been taken over from a timed-out holder,
+//!   * lock-table bookkeeping oracles (`LockTable.lean`, Props5), after EVERY statement: (1) an open transaction that
+//!     is the row_lock_holder of n rows has at least n keys in its list (`locks_held_by`) — every lock in the table is
+//!     listed under its owner (class `relational_engine.<site>/lock_not_listed_under_owner`); (2) the holder of every
+//!     row is an open transaction — no lock outlives its transaction, whichever way it ended and however long ago
+//!     (`…/lock_outlives_transaction`); (3) a lock-conflict error names a blocking transaction that is open and held a
+//!     row of the table just before the statement (`…/lock_conflict_with_ended_transaction`,
+//!     `…/lock_conflict_without_held_row`).
+//! Lock sweeps in the middle of a transaction's life: a transaction takes its locks statement by statement, so they
+//! have different ages; `cleanup_expired_locks` may find the older ones expired and the younger ones alive and must take
+//! out of the owner's key list exactly the keys it removes from the table.  Directed scripts (lock timeout 2 s, locks
+//! at 0 / 1100 / 2200 ms, sweep at 2200 ms, then commit | rollback | transaction timeout; neighbours: nothing expired,
+//! everything expired and re-locked, two owners, a key listed twice, takeover before / after the sweep) run first; the
+//! stream `expiry_sweep` produces that shape at random.  A failing script with sleeps is shrunk by concurrent
+//! single-statement removals (`shrink_sleepy`).
 //! The takeover scenarios (A writes r, A's lock times out, B writes r, A ends by commit | rollback | timeout
 //! cleanup while B is open, C tries to write r, B rolls back) run first as directed scripts and, with random
 //! statements around that skeleton, as the stream `takeover`.
@@ -319,6 +333,9 @@ struct Hd {
     first_write_step: BTreeMap<usize, usize>,
     /// (row, column): a `tx_update` of this transaction assigned the column the value the row already held
     same_val: BTreeSet<(Key, usize)>,
+    /// a lock sweep ran while this transaction (open) had at least one lock past the timeout and at least one lock
+    /// within it (virtual ages): the rows whose locks were alive at that sweep
+    swept_partly: BTreeSet<Key>,
 }
 
 #[derive(Default)]
@@ -375,6 +392,12 @@ struct World {
     lock_ms: u64,
     tx_ms: u64,
     slept: Duration,
+    /// `blocking_tx` of the lock-conflict error the last statement returned (real transaction id)
+    last_blocker: Option<u64>,
+    /// keys whose lock has been reported as held by a transaction that is not open
+    dead_reported: BTreeSet<Key>,
+    /// handles reported as holding a lock that is missing from their key list (reported where it is first seen)
+    unlisted_reported: BTreeSet<usize>,
 }
 
 fn rows_tok(rows: &[(u64, Vec<i64>)]) -> String {
@@ -413,6 +436,9 @@ impl World {
             lock_ms: cfg.lock_secs * 1000,
             tx_ms: cfg.tx_secs * 1000,
             slept: Duration::ZERO,
+            last_blocker: None,
+            dead_reported: BTreeSet::new(),
+            unlisted_reported: BTreeSet::new(),
         }
     }
     fn tname(t: usize) -> String {
@@ -494,9 +520,15 @@ impl World {
 
     /// execute one statement on the real engine; canonical result
     fn exec_real(&mut self, op: &Op) -> String {
+        let blocker: std::cell::Cell<Option<u64>> = std::cell::Cell::new(None);
         let res = |r: Result<usize, RelationalError>| match r {
             Ok(n) => format!("ok {n}"),
-            Err(e) => format!("err {}", err_class(&e)),
+            Err(e) => {
+                if let RelationalError::LockConflict { blocking_tx, .. } = &e {
+                    blocker.set(Some(*blocking_tx));
+                }
+                format!("err {}", err_class(&e))
+            },
         };
         let unit = |r: Result<(), RelationalError>| match r {
             Ok(()) => "ok".to_string(),
@@ -509,7 +541,7 @@ impl World {
         let upd = |u: &Vec<(usize, i64)>| -> HashMap<String, Value> {
             u.iter().map(|(c, x)| (format!("c{c}"), vreal(*x))).collect()
         };
-        match op {
+        let r = match op {
             Op::CreateTable | Op::CreateTableN(_) => {
                 let nl: Vec<usize> = if let Op::CreateTableN(nl) = op { nl.clone() } else { vec![] };
                 let schema = Schema::new((0..NCOLS).map(|c| {
@@ -605,7 +637,9 @@ impl World {
             Op::CleanupLocks => format!("ok {}", self.eng.tx_manager().cleanup_expired_locks()),
             Op::CleanupTxs => format!("ok {}", self.eng.tx_manager().cleanup_expired()),
             Op::Sweep => "ok".into(),
-        }
+        };
+        self.last_blocker = blocker.get();
+        r
     }
 }
 
@@ -1086,6 +1120,27 @@ fn exec_script(ops: &[Op], cfg: Cfg, mut model: Option<&mut Model>) -> Outcome {
                     ended_all.push(h);
                 }
             },
+            Op::CleanupLocks => {
+                // the shape the per-key removal of `cleanup_expired_locks` exists for: an OPEN transaction with at least
+                // one lock past the timeout and at least one within it (virtual ages; a row re-locked later counts with
+                // its latest lock).  The rows whose locks were alive are remembered until the transaction ends.
+                let (vnow, lock_ms) = (w.vnow, w.lock_ms);
+                for hd in w.handles.values_mut() {
+                    if hd.state != HState::Active {
+                        continue;
+                    }
+                    let dead = hd.lock_time.values().filter(|at| vnow - **at > lock_ms).count();
+                    let alive: Vec<Key> = hd.lock_time.iter().filter(|(_, at)| vnow - **at <= lock_ms).map(|(k, _)| *k).collect();
+                    if dead > 0 && !alive.is_empty() {
+                        hd.swept_partly.extend(alive);
+                        out.hit("lock_sweep:owner_with_expired_and_live_locks");
+                    } else if dead > 0 {
+                        out.hit("lock_sweep:owner_with_expired_locks_only");
+                    } else if !alive.is_empty() {
+                        out.hit("lock_sweep:owner_with_live_locks_only");
+                    }
+                }
+            },
             Op::Tick(_) => {
                 // expiry oracle: a lock older than the timeout no longer has a holder
                 for (g, hd) in &w.handles {
@@ -1107,8 +1162,8 @@ fn exec_script(ops: &[Op], cfg: Cfg, mut model: Option<&mut Model>) -> Outcome {
         // foreign-lock oracle (`release_keeps_foreign_locks`, `held_lock_survives_others`): a row held before the
         // statement by a transaction that is still open afterwards is still held by it.  The engine's clock is the
         // wall clock, so a lock within 600 ms of its timeout (virtual age) is not judged.
+        let holders_after = if matches!(op, Op::Tick(_) | Op::Sweep) { BTreeMap::new() } else { w.holders(&after) };
         if !holders_before.is_empty() {
-            let holders_after = w.holders(&after);
             for (k, r) in &holders_before {
                 let Some((g, hd)) = w.handles.iter().find(|(_, hd)| hd.real == *r) else { continue };
                 if hd.state != HState::Active || holders_after.get(k) == Some(r) {
@@ -1149,6 +1204,72 @@ fn exec_script(ops: &[Op], cfg: Cfg, mut model: Option<&mut Model>) -> Outcome {
                 }))) {
                     out.hit(&format!("old_holder_ended_while_new_holder_open:{site}"));
                 }
+            }
+        }
+        // ---- lock-table bookkeeping oracles (`every_lock_is_listed_under_its_owner`, `no_lock_outlives_its_transaction`,
+        // `lock_conflict_names_a_live_transaction`), on the engine's own answers after EVERY statement:
+        if !matches!(op, Op::Tick(_) | Op::Sweep) {
+            // (1) every lock in the table is in its owner's key list: an open transaction that is the row_lock_holder of n
+            //     rows has at least n keys listed (`locks_held_by`; the list may hold more — re-locked rows, rows taken
+            //     over by somebody else).  A lock that is in the table and in no list is one `release` will never find.
+            let open: Vec<(usize, u64)> = w.handles.iter().filter(|(_, hd)| hd.state == HState::Active).map(|(g, hd)| (*g, hd.real)).collect();
+            for (g, real) in &open {
+                let held: Vec<Key> = holders_after.iter().filter(|(_, r)| *r == real).map(|(k, _)| *k).collect();
+                let listed = w.eng.tx_manager().locks_held_by(*real);
+                if !held.is_empty() {
+                    out.hit("lock_listing_check");
+                    if listed > held.len() {
+                        out.hit("lock_listing_check:list_longer_than_rows_held");
+                    }
+                }
+                if held.len() > listed && w.unlisted_reported.insert(*g) {
+                    out.viol(format!("relational_engine.{site}/lock_not_listed_under_owner"),
+                             format!("after {}: open transaction h{g} is the row_lock_holder of {} row(s) {held:?} but locks_held_by(h{g}) = {listed}: a lock \
+                                      that is in the lock table is missing from its owner's key list, so the release at the owner's commit / rollback / \
+                                      timeout cannot find it", op.show(), held.len()), step);
+                }
+            }
+            // (2) no lock outlives its transaction: the holder of every row is an open transaction
+            for (k, r) in &holders_after {
+                if w.eng.is_transaction_active(*r) || w.dead_reported.contains(k) {
+                    continue;
+                }
+                w.dead_reported.insert(*k);
+                let who = match w.handles.iter().find(|(_, hd)| hd.real == *r) {
+                    Some((g, hd)) => format!("h{g} ({})", match hd.state {
+                        HState::Committed => "committed", HState::RolledBack => "rolled back", HState::Expired => "removed by cleanup_expired", HState::Active => "open?" }),
+                    None => "an internal transaction of a non-transactional statement".to_string(),
+                };
+                let swept = w.handles.values().any(|hd| hd.real == *r && hd.swept_partly.contains(k));
+                out.viol(format!("relational_engine.{site}/lock_outlives_transaction"),
+                         format!("after {}: row {k:?} is locked (row_lock_holder) by {who}, which is not an open transaction{}", op.show(),
+                                 if swept { "; its lock was alive when cleanup_expired_locks removed an older, expired lock of the same transaction" } else { "" }), step);
+            }
+            // (3) a lock conflict names a live transaction that held one of the table's rows just before the statement
+            if let (Op::TxUpdate(_, t, ..) | Op::TxDelete(_, t, _) | Op::Update(t, ..) | Op::Delete(t, _), "err lock_conflict") = (op, r_real.as_str()) {
+                if let Some(b) = w.last_blocker {
+                    out.hit("lock_conflict_blocker_check");
+                    let who = match w.handles.iter().find(|(_, hd)| hd.real == b) {
+                        Some((g, _)) => format!("h{g}"),
+                        None => format!("transaction {b} (not one of the script's)"),
+                    };
+                    if !w.eng.is_transaction_active(b) {
+                        out.viol(format!("relational_engine.{site}/lock_conflict_with_ended_transaction"),
+                                 format!("{} refused with a lock conflict naming {who} as the blocking transaction, which is not an open transaction: \
+                                          a lock it left behind keeps writers out", op.show()), step);
+                    } else if !holders_before.iter().any(|(k, r)| k.0 == *t && *r == b) {
+                        out.viol(format!("relational_engine.{site}/lock_conflict_without_held_row"),
+                                 format!("{} refused with a lock conflict naming {who}, which was the row_lock_holder of no row of t{t} just before the \
+                                          statement (holders: {holders_before:?})", op.show()), step);
+                    }
+                }
+            }
+        }
+        // a transaction that a lock sweep found partly expired has now ended: the rows whose locks were alive at the sweep
+        // are checked by the lock-release oracle below and by (2) from here on
+        for h in &ended_all {
+            if !w.handles[h].swept_partly.is_empty() {
+                out.hit(&format!("partly_expired_owner_ended:{site}"));
             }
         }
         // inserted-row lock oracle: `tx_insert` locks the row it creates and nothing else — no other key (another row,
@@ -1484,6 +1605,7 @@ fn new_hd(real: u64, model: u64, now: u64) -> Hd {
         clobbered: BTreeSet::new(),
         first_write_step: BTreeMap::new(),
         same_val: BTreeSet::new(),
+        swept_partly: BTreeSet::new(),
     }
 }
 
@@ -1879,7 +2001,8 @@ fn gen_script(rng: &mut Rng, len: usize, ddl: bool, pool: &[i64]) -> Vec<Op> {
                 _ => Op::Insert(t, vec![*rng.pick(pool)]),
             }),
             98 => ops.push(Op::TxSelect(h, t, gen_cond(rng, approx_rows[t], pool))),
-            _ => ops.push(Op::Sweep),
+            // 30 s lock timeout: the lock sweep finds nothing expired and must change nothing
+            _ => ops.push(if rng.chance(1, 2) { Op::CleanupLocks } else { Op::Sweep }),
         }
     }
     rng.shuffle(&mut open);
@@ -1905,6 +2028,57 @@ fn directed() -> Vec<(&'static str, Cfg, Vec<Op>)> {
         v
     };
     let mut out = vec![];
+    // LOCK SWEEP IN THE MIDDLE OF A TRANSACTION'S LIFE (`LockTable.lean`, Props5: `every_lock_is_listed_under_its_owner`,
+    // `no_lock_outlives_its_transaction`, `lock_sweep_unlists_exactly_the_locks_it_removes`,
+    // `sweep_then_end_frees_every_row_of_the_transaction`; the sweep that forgets the owner's whole key list:
+    // `sweep_forgetting_owner_list_leaks_lock_witness`).  A transaction takes its locks statement by statement, so they
+    // have different ages.  Lock timeout 2 s: A = h0 locks row 1 at 0 ms and row 2 at 1100 ms; at 2200 ms the lock on
+    // row 1 has expired, the lock on row 2 has not; `cleanup_expired_locks` runs in that window (it may drop only the
+    // expired lock, from the table AND from A's key list); then A ends — commit | rollback | transaction timeout.  After
+    // every statement the bookkeeping oracles run; B = h1 must get every row of A at once.
+    let mid = Cfg { lock_secs: 2, tx_secs: 60, wide: false, nulls: false };
+    let mid_tx = Cfg { lock_secs: 2, tx_secs: 3, wide: false, nulls: false };
+    for (name, end_a) in [("partial_expiry_sweep_then_commit", Commit(0)), ("partial_expiry_sweep_then_rollback", Rollback(0))] {
+        let mut s = base(true);
+        s.extend([Begin(0), TxUpdate(0, 0, Cond::Id(1), vec![(0, 4)]), Tick(1100), TxUpdate(0, 0, Cond::Id(2), vec![(1, 0)]), Tick(1100), CleanupLocks, end_a,
+                  Begin(1), TxUpdate(1, 0, Cond::Id(2), vec![(0, 5)]), TxDelete(1, 0, Cond::Id(1)), Update(0, Cond::Id(3), vec![(0, 0)]), Commit(1), Sweep]);
+        out.push((name, mid, s));
+    }
+    // the owner is removed by the TRANSACTION sweep (3 s) while its younger lock (taken at 2200 ms, swept past at once) is
+    // 1100 ms old: `cleanup_expired` releases by the same key list
+    let mut s = base(true);
+    s.extend([Begin(0), TxUpdate(0, 0, Cond::Id(1), vec![(0, 4)]), Tick(1100), Begin(1), Tick(1100), TxUpdate(0, 0, Cond::Id(2), vec![(1, 0)]), CleanupLocks, Tick(1100), CleanupTxs,
+              TxUpdate(1, 0, Cond::Id(2), vec![(0, 5)]), TxUpdate(1, 0, Cond::Id(1), vec![(1, 5)]), Commit(0), Commit(1), Sweep]);
+    out.push(("partial_expiry_sweep_then_tx_timeout", mid_tx, s));
+    // neighbours.  (a) three generations of locks, a sweep after each tick, an insert among them; (b) the sweep finds ALL of
+    // the owner's locks expired, the owner locks again afterwards (a fresh list) and ends; (c) the sweep finds nothing
+    // expired; (d) two owners, each partly expired, a row locked twice by one statement after the other (the key is
+    // listed twice), the second owner takes an expired row of the first over after the sweep, the first ends, then the
+    // second; (e) takeover BEFORE the sweep: the old holder's list still names the row that is now somebody else's
+    let mut s = base(true);
+    s.extend([Begin(0), TxUpdate(0, 0, Cond::Id(1), vec![(0, 4)]), Tick(1100), CleanupLocks, TxInsert(0, 0, vec![4, 4]), TxDelete(0, 0, Cond::Id(2)), Tick(1100), CleanupLocks,
+              TxUpdate(0, 0, Cond::Id(3), vec![(1, 1)]), Begin(1), TxUpdate(1, 0, Cond::Id(4), vec![(0, 0)]), TxUpdate(1, 0, Cond::Id(1), vec![(0, 2)]), Rollback(0),
+              TxUpdate(1, 0, Cond::All, vec![(1, 2)]), Commit(1), Sweep]);
+    out.push(("partial_expiry_three_generations", mid, s));
+    let mut s = base(true);
+    s.extend([Begin(0), TxUpdate(0, 0, Cond::Id(1), vec![(0, 4)]), TxUpdate(0, 0, Cond::Id(2), vec![(0, 4)]), Tick(2100), CleanupLocks, TxUpdate(0, 0, Cond::Id(3), vec![(0, 4)]),
+              CleanupLocks, Commit(0), Begin(1), TxUpdate(1, 0, Cond::All, vec![(1, 2)]), Rollback(1), Sweep]);
+    out.push(("full_expiry_sweep_then_relock_then_commit", mid, s));
+    let mut s = base(true);
+    s.extend([Begin(0), TxUpdate(0, 0, Cond::Id(1), vec![(0, 4)]), Tick(1100), TxUpdate(0, 0, Cond::Id(2), vec![(0, 4)]), CleanupLocks, Begin(1),
+              TxUpdate(1, 0, Cond::Id(1), vec![(0, 0)]), TxUpdate(1, 0, Cond::Id(2), vec![(0, 0)]), Rollback(0), TxUpdate(1, 0, Cond::All, vec![(1, 2)]), Commit(1), Sweep]);
+    out.push(("sweep_with_nothing_expired_then_rollback", mid, s));
+    let mut s = base(true);
+    s.extend([Begin(0), Begin(1), TxUpdate(0, 0, Cond::Id(1), vec![(0, 4)]), TxUpdate(0, 0, Cond::Id(1), vec![(1, 4)]), TxUpdate(1, 0, Cond::Id(3), vec![(0, 5)]), Tick(1100),
+              TxUpdate(0, 0, Cond::Id(2), vec![(0, 4)]), TxInsert(1, 0, vec![5, 5]), Tick(1100), CleanupLocks, TxUpdate(1, 0, Cond::Id(1), vec![(0, 0)]),
+              TxUpdate(1, 0, Cond::Id(2), vec![(0, 0)]), Commit(0), TxUpdate(1, 0, Cond::Id(2), vec![(0, 0)]), Begin(2), TxUpdate(2, 0, Cond::Id(1), vec![(1, 1)]),
+              TxUpdate(2, 0, Cond::Id(3), vec![(1, 1)]), Rollback(1), TxUpdate(2, 0, Cond::All, vec![(1, 3)]), Commit(2), Sweep]);
+    out.push(("partial_expiry_two_owners_takeover_after_sweep", mid, s));
+    let mut s = base(true);
+    s.extend([Begin(0), TxUpdate(0, 0, Cond::Id(1), vec![(0, 4)]), Tick(1100), TxUpdate(0, 0, Cond::Id(2), vec![(0, 4)]), Tick(1100), Begin(1), TxUpdate(1, 0, Cond::Id(1), vec![(0, 0)]),
+              CleanupLocks, Commit(0), TxUpdate(1, 0, Cond::Id(2), vec![(0, 0)]), Begin(2), TxUpdate(2, 0, Cond::Id(1), vec![(1, 1)]), TxUpdate(2, 0, Cond::Id(2), vec![(1, 1)]),
+              Rollback(1), TxUpdate(2, 0, Cond::All, vec![(1, 3)]), Commit(2), Sweep]);
+    out.push(("takeover_before_sweep_then_old_holder_commits", mid, s));
     // REGRESSION CASES OF REPAIRED DEFECTS, run first.
     // 6f865e8a — drop_table next to an open transaction that has written the table (`DdlModel.lean`,
     // `drop_table_refused_while_open_transaction_wrote_table`, `rollback_never_touches_table_created_after_own_writes`;
@@ -2252,6 +2426,160 @@ fn gen_takeover_script(rng: &mut Rng) -> (Cfg, Vec<Op>) {
     }
     ops.push(Op::Sweep);
     (cfg, ops)
+}
+
+/// lock sweeps in the middle of transactions' lives (lock timeout 2 s): 1-2 transactions take row locks in two or three
+/// GENERATIONS separated by ticks of 1100 ms — mostly on distinct rows, sometimes the same row again —, so that at
+/// 2200 ms the first generation has expired and the later ones have not; `cleanup_expired_locks` runs in that window
+/// (5 scripts in 6; also once before anything has expired in 1 of 3); then the owners end — commit | rollback, or by the
+/// transaction sweep (transaction timeout 3 s: second generation taken at 2200 ms, swept past at once, cleanup_expired at
+/// 3300 ms) — and another transaction plus non-transactional statements write every row the owners had locked, row by
+/// row (a leftover lock of an ended owner refuses them) and all at once
+fn gen_expiry_sweep_script(rng: &mut Rng) -> (Cfg, Vec<Op>) {
+    let by_tx_sweep = rng.chance(1, 5);
+    let cfg = Cfg { lock_secs: 2, tx_secs: if by_tx_sweep { 3 } else { 60 }, wide: false, nulls: false };
+    let mut ops = vec![Op::CreateTable, Op::CreateIndex(0, 0), Op::CreateBtree(0, 1)];
+    let nrows = rng.range(4, 6) as u64;
+    for _ in 0..nrows {
+        ops.push(Op::Insert(0, gen_vals(rng, P6)));
+    }
+    let two = rng.chance(1, 2);
+    ops.push(Op::Begin(0));
+    if two {
+        ops.push(Op::Begin(1));
+    }
+    let owners: Vec<usize> = if two { vec![0, 1] } else { vec![0] };
+    // rows not yet locked by anybody, handed out to the generations
+    let mut free: Vec<u64> = (1..=nrows).collect();
+    rng.shuffle(&mut free);
+    let mut locked: Vec<u64> = vec![];
+    let mut next_id = nrows + 1;
+    let generation = |rng: &mut Rng, ops: &mut Vec<Op>, free: &mut Vec<u64>, locked: &mut Vec<u64>, next_id: &mut u64| {
+        for h in &owners {
+            for _ in 0..rng.range(1, 2) {
+                match (rng.below(8), free.pop()) {
+                    (0, _) | (_, None) => {
+                        ops.push(Op::TxInsert(*h, 0, gen_vals(rng, P6)));
+                        locked.push(*next_id);
+                        *next_id += 1;
+                    },
+                    (1..=2, Some(id)) => {
+                        ops.push(Op::TxDelete(*h, 0, Cond::Id(id)));
+                        locked.push(id);
+                    },
+                    (_, Some(id)) => {
+                        ops.push(Op::TxUpdate(*h, 0, Cond::Id(id), gen_upd(rng, P6)));
+                        locked.push(id);
+                    },
+                }
+            }
+        }
+    };
+    generation(rng, &mut ops, &mut free, &mut locked, &mut next_id);
+    ops.push(Op::Tick(1100));
+    if rng.chance(1, 3) {
+        ops.push(Op::CleanupLocks);
+    }
+    if by_tx_sweep {
+        // the third transaction begins late: it survives the transaction sweep
+        ops.push(Op::Begin(2));
+        ops.push(Op::Tick(1100));
+        generation(rng, &mut ops, &mut free, &mut locked, &mut next_id);
+    } else {
+        generation(rng, &mut ops, &mut free, &mut locked, &mut next_id);
+        if rng.chance(1, 4) {
+            // a row of the first generation locked again by its owner's next statement: listed twice, young again
+            let h = *rng.pick(&owners);
+            ops.push(Op::TxUpdate(h, 0, Cond::Id(locked[0]), gen_upd(rng, P6)));
+        }
+        ops.push(Op::Tick(1100));
+    }
+    let swept = rng.chance(5, 6);
+    if swept {
+        ops.push(Op::CleanupLocks);
+    }
+    if !by_tx_sweep {
+        if rng.chance(1, 3) {
+            // a third generation after the sweep
+            generation(rng, &mut ops, &mut free, &mut locked, &mut next_id);
+        }
+        ops.push(Op::Begin(2));
+        if rng.chance(1, 3) {
+            // while the owners are open: an expired row can be taken, a live one refuses
+            ops.push(Op::TxUpdate(2, 0, Cond::Id(*rng.pick(&locked)), gen_upd(rng, P6)));
+        }
+    }
+    // the owners end
+    if by_tx_sweep {
+        ops.extend([Op::Tick(1100), Op::CleanupTxs]);
+        if rng.chance(1, 2) {
+            ops.push(Op::CleanupLocks);
+        }
+    } else {
+        let mut order = owners.clone();
+        rng.shuffle(&mut order);
+        for h in order {
+            ops.push(if rng.chance(1, 2) { Op::Commit(h) } else { Op::Rollback(h) });
+            if rng.chance(1, 4) {
+                ops.push(Op::CleanupLocks);
+            }
+        }
+    }
+    // everybody else writes the rows the owners had locked
+    let mut probe = locked.clone();
+    rng.shuffle(&mut probe);
+    for id in probe.into_iter().take(4) {
+        ops.push(match rng.below(6) {
+            0 => Op::Update(0, Cond::Id(id), gen_upd(rng, P6)),
+            1 => Op::TxDelete(2, 0, Cond::Id(id)),
+            _ => Op::TxUpdate(2, 0, Cond::Id(id), gen_upd(rng, P6)),
+        });
+    }
+    ops.push(Op::TxUpdate(2, 0, Cond::All, gen_upd(rng, P6)));
+    ops.push(if rng.chance(1, 2) { Op::Commit(2) } else { Op::Rollback(2) });
+    ops.push(Op::Sweep);
+    (cfg, ops)
+}
+
+/// Shrinker for scripts with real sleeps: rounds of single-statement removals, all candidates of a round run
+/// concurrently on their own engines (real engine only, no model).  A round first tries to drop every statement whose
+/// removal alone keeps the violation class at once, else the first of them.  Returns the script and its message.
+fn shrink_sleepy(ops: &[Op], cfg: Cfg, class: &str, what: String) -> (Vec<Op>, String) {
+    let run_all = |cands: Vec<Vec<Op>>| -> Vec<Option<String>> {
+        let hs: Vec<std::thread::JoinHandle<Option<String>>> = cands.into_iter().map(|c| {
+            let cls = class.to_string();
+            std::thread::spawn(move || {
+                let out = exec_script(&c, cfg, None);
+                if out.discarded { None } else { out.violations.into_iter().find(|v| v.0 == cls).map(|v| v.1) }
+            })
+        }).collect();
+        hs.into_iter().map(|h| h.join().unwrap_or(None)).collect()
+    };
+    let mut cur: Vec<Op> = ops.to_vec();
+    let mut msg = what;
+    for _round in 0..8 {
+        if cur.len() <= 2 {
+            break;
+        }
+        let cands: Vec<Vec<Op>> = (0..cur.len()).map(|i| cur.iter().enumerate().filter(|(j, _)| *j != i).map(|(_, o)| o.clone()).collect()).collect();
+        let res = run_all(cands);
+        let removable: Vec<usize> = res.iter().enumerate().filter(|(_, r)| r.is_some()).map(|(i, _)| i).collect();
+        if removable.is_empty() {
+            break;
+        }
+        if removable.len() > 1 {
+            let all: Vec<Op> = cur.iter().enumerate().filter(|(j, _)| !removable.contains(j)).map(|(_, o)| o.clone()).collect();
+            if let Some(Some(m)) = run_all(vec![all.clone()]).into_iter().next() {
+                cur = all;
+                msg = m;
+                continue;
+            }
+        }
+        let i = removable[0];
+        msg = res[i].clone().unwrap_or(msg);
+        cur.remove(i);
+    }
+    (cur, msg)
 }
 
 /// Scripts with real sleeps run concurrently, each on its own engine and its own model driver process (they spend
@@ -2744,6 +3072,12 @@ struct Tally {
     per_class: BTreeMap<String, u64>,
 }
 
+/// the classes listed in known_findings.jsonl (each reproduced by a directed script on every run)
+const KNOWN_CLASSES: [&str; 4] = ["relational_engine.rollback/index_entry_not_restored",
+                                  "relational_engine.rollback/committed_write_undone_after_lock_expiry",
+                                  "relational_engine.rollback/duplicate_row_in_index_answer",
+                                  "relational_engine.cleanup_expired/uncommitted_change_kept"];
+
 fn absorb(rep: &mut Report, tally: &mut Tally, stream: &str, cfg: Cfg, ops: &[Op], out: Outcome, shrink: bool) {
     let key: String = ops.iter().map(|o| o.show()).collect::<Vec<_>>().join("|");
     rep.case(stream, if out.nontrivial && !out.discarded { Some(&key) } else { None });
@@ -2772,11 +3106,16 @@ fn absorb(rep: &mut Report, tally: &mut Tally, stream: &str, cfg: Cfg, ops: &[Op
         }
         // minimise the failing script on the real engine alone
         let mut script: Vec<Op> = ops[..=step.min(ops.len() - 1)].to_vec();
+        let mut what = what;
         if shrink && !script.iter().any(|o| matches!(o, Op::Tick(_))) {
             let cls = class.clone();
             script = shrink_list(&script, &mut |cand: &[Op]| exec_script(cand, cfg, None).violations.iter().any(|v| v.0 == cls));
+        } else if shrink && *n == 1 && !KNOWN_CLASSES.contains(&class.as_str()) {
+            // a script with real sleeps: the first failing input of a class is shrunk by concurrent single-statement
+            // removals (the known findings, reproduced by their directed scripts on every run, are not)
+            (script, what) = shrink_sleepy(&script, cfg, &class, what);
         }
-        // (a script with ticks is not shrunk: it is the prefix that was just run, its message is the one recorded)
+        // (otherwise a script with ticks is the prefix that was just run, its message is the one recorded)
         let what2 = if script.iter().any(|o| matches!(o, Op::Tick(_))) {
             what
         } else {
@@ -2813,8 +3152,10 @@ fn main() {
     let timeout_jobs: Vec<(Cfg, Vec<Op>)> = (0..if args.thorough { 60 } else { 8 }).map(|_| gen_timeout_script(&mut rng)).collect();
     let mut rng = root.fork("takeover");
     let takeover_jobs: Vec<(Cfg, Vec<Op>)> = (0..if args.thorough { 72 } else { 16 }).map(|_| gen_takeover_script(&mut rng)).collect();
+    let mut rng = root.fork("expiry_sweep");
+    let sweep_jobs: Vec<(Cfg, Vec<Op>)> = (0..if args.thorough { 72 } else { 14 }).map(|_| gen_expiry_sweep_script(&mut rng)).collect();
     let rnd_sleepers = {
-        let jobs: Vec<(Cfg, Vec<Op>)> = timeout_jobs.iter().chain(takeover_jobs.iter()).cloned().collect();
+        let jobs: Vec<(Cfg, Vec<Op>)> = sweep_jobs.iter().chain(timeout_jobs.iter()).chain(takeover_jobs.iter()).cloned().collect();
         let driver = args.driver.clone();
         // at most 24 scripts asleep at a time
         std::thread::spawn(move || {
@@ -2845,10 +3186,7 @@ fn main() {
     }
 
     // every known finding must have been reproduced by the directed scenarios above (deterministic, seed independent)
-    for class in ["relational_engine.rollback/index_entry_not_restored",
-                  "relational_engine.rollback/committed_write_undone_after_lock_expiry",
-                  "relational_engine.rollback/duplicate_row_in_index_answer",
-                  "relational_engine.cleanup_expired/uncommitted_change_kept"] {
+    for class in KNOWN_CLASSES {
         if tally.per_class.contains_key(class) {
             rep.hit(&format!("directed_reproduced:{class}"));
         } else {
@@ -2924,6 +3262,13 @@ fn main() {
     // 4. lock / transaction timeouts, 5. lock takeover with the old holder ending first (real sleeps; started above)
     let mut outs = rnd_sleepers.join().expect("random sleepers panicked");
     outs.reverse();
+    // 4a. lock sweeps while transactions hold locks of different ages
+    for (i, (cfg, ops)) in sweep_jobs.iter().enumerate() {
+        if i < 1 {
+            rep.sample(json!({"stream": "expiry_sweep", "script": ops.iter().map(|o| o.show()).collect::<Vec<_>>()}));
+        }
+        absorb(&mut rep, &mut tally, "expiry_sweep", *cfg, ops, outs.pop().unwrap(), true);
+    }
     for (cfg, ops) in &timeout_jobs {
         absorb(&mut rep, &mut tally, "timeouts", *cfg, ops, outs.pop().unwrap(), false);
     }
@@ -2989,6 +3334,12 @@ fn main() {
         "directed:same_value_on_btree_column_other_changes", "directed:same_value_update_rollback_both_kinds_one_column",
         "directed:control_update_there_and_back_rollback", "directed:control_same_value_update_commit",
         "directed:takeover_old_holder_commits", "directed:takeover_old_holder_rolls_back", "directed:takeover_old_holder_cleaned_up",
+        "directed:partial_expiry_sweep_then_commit", "directed:partial_expiry_sweep_then_rollback", "directed:partial_expiry_sweep_then_tx_timeout",
+        "directed:partial_expiry_three_generations", "directed:full_expiry_sweep_then_relock_then_commit", "directed:sweep_with_nothing_expired_then_rollback",
+        "directed:partial_expiry_two_owners_takeover_after_sweep", "directed:takeover_before_sweep_then_old_holder_commits",
+        "lock_sweep:owner_with_expired_and_live_locks", "lock_sweep:owner_with_expired_locks_only", "lock_sweep:owner_with_live_locks_only",
+        "partly_expired_owner_ended:commit", "partly_expired_owner_ended:rollback", "partly_expired_owner_ended:cleanup_expired",
+        "lock_listing_check", "lock_listing_check:list_longer_than_rows_held", "lock_conflict_blocker_check",
         "directed_reproduced:relational_engine.rollback/index_entry_not_restored",
         "directed_reproduced:relational_engine.rollback/committed_write_undone_after_lock_expiry",
         "directed_reproduced:relational_engine.rollback/duplicate_row_in_index_answer",
